@@ -17,6 +17,8 @@ From PyxisModel Require Import Base Grammar SemTypes Registry Sem RustLayout Enu
 Import ListNotations.
 Local Open Scope Z_scope.
 
+From PyxisModel Require EmitDefault EmitMarkersEnum.
+
 Theorem C08_main : forall st owner d rs,
   enum_build st owner d = Ok rs ->
   exists ed es module,
@@ -108,3 +110,35 @@ Theorem C08_emitted_enum_shape : forall p size v ed items,
     Forall is_impl_or_const rest.
 Proof. exact build_enum_shape. Qed.
 Print Assumptions C08_emitted_enum_shape.
+
+Theorem C08_emitted_enum_default :
+  forall (order : schedule) (ptr : N) (mods : list (path * gmodule)) (st0 st : sstate)
+      (files : list (string * sexp)) (p : path) (it0 : item) (gd : gitemdef) 
+      (ed0 : genumdef),
+    input_state ptr mods = Ok st0 ->
+    NoDup (map fst mods) ->
+    collision_free (st_reg st0) ->
+    EmitFinal.keeps_work order ->
+    pyxis_resolve order ptr mods = BOk st ->
+    write_all st = Ok files ->
+    reg_get (st_reg st0) p = Some it0 ->
+    it_state it0 = Unresolved gd ->
+    gi_inner gd = GIEnum ed0 ->
+    path_parent p <> Some [] ->
+    exists
+      (parent : path) (name : string) (f : sexp) (items : list sexp) (e : sexp) 
+    (vs : list evariant),
+      path_parent p = Some parent /\
+      path_last p = Some name /\
+      In (out_path parent, f) files /\
+      file_items f = Some items /\
+      EmitMarkersEnum.find_enum name items = Some e /\
+      enum_derives e = Some (enum_base_derives ++ EmitMarkers.declared_derives (ged_attrs ed0)) /\
+      enum_variants_of e = Some vs /\
+      map evr_default vs = map is_default_stmt (ged_stmts ed0) /\
+      (EmitDefault.count_default vs <= 1)%nat /\
+      (In "Default"%string (enum_base_derives ++ EmitMarkers.declared_derives (ged_attrs ed0)) <->
+       EmitDefault.count_default vs = 1%nat) /\
+      (EmitDefault.has_default (enum_derives e) = true -> EmitDefault.item_default_ok e = true).
+Proof. exact EmitDefault.C08_emitted_enum_default. Qed.
+Print Assumptions C08_emitted_enum_default.
